@@ -37,7 +37,8 @@ AdSectors(v) == IF v = "qed" THEN {"ns+u", "ns+d", "ns-u", "ns-d", "S", "V"}
 QedOrders(v) == IF v = "qed" THEN {1, 2} ELSE {0}
 (* two N3LO parametrisations; variation indices per parametrisation *)
 Flavours(k) == IF k = 4 THEN {"fhmruvv", "eko"} ELSE {"-"}
-NfRange(k) == IF k = 4 THEN 3..5 ELSE 3..6
+NfSeq(k) == IF k = 4 THEN <<3, 4, 5>> ELSE <<3, 4, 5, 6>>
+NfRange(k) == {NfSeq(k)[m] : m \in 1..Len(NfSeq(k))}
 (* maximal variation index per singlet entry of the in-house N3LO (documented) *)
 EkoVarMax == [gg |-> 19, gq |-> 15, qg |-> 15, qq |-> 6]
 
@@ -66,7 +67,7 @@ PlanC26 ==
   {[fam |-> "ad", v |-> c.v, sec |-> c.sec, k |-> c.k, q |-> c.q, nf |-> c.nf, fl |-> c.fl, var |-> c.var, j |-> j] :
      c \in C26AdConfigs, j \in Pts}
   \cup {[fam |-> "ome", v |-> c.v, sec |-> c.sec, k |-> c.k, q |-> 0, nf |-> c.nf, fl |-> "-", var |-> 0, j |-> j] :
-          c \in C26OmeConfigs, j \in Pts}
+          c \in (IF Switch = "plan-without-ome" THEN {} ELSE C26OmeConfigs), j \in Pts}
 
 C26Verdict(c, o) ==
   IF o.cj > 1 THEN "C26:conj"
@@ -119,33 +120,36 @@ AccExp(a) == CASE a = "exact" -> -900 [] a = "gfun" -> -400 [] a = "param" -> -2
 
 (* A rule: evaluation point, the combination (sector, row, column, weight) whose     *)
 (* weighted sum must vanish (indices 0-based as in the code; -1 = scalar), an extra   *)
-(* additive term, and where the scale of the cell is taken.                           *)
+(* additive term, and where the scale of the cell is taken: "terms" = sum of the      *)
+(* moduli of the terms at the evaluation point, "next" = modulus of the entry at the  *)
+(* next integer moment; in both cases maximised over the nf values of the order       *)
+(* (an entry may nearly cancel for one nf).                                           *)
 Term(s, a, b, w) == [sec |-> s, a |-> a, b |-> b, w |-> w]
 SumRule(v, r) ==
-  CASE v = "us" /\ r = "mom-q" -> [at |-> 2, terms |-> <<Term("S", 0, 0, "1"), Term("S", 1, 0, "1")>>, extra |-> "0"]
-    [] v = "us" /\ r = "mom-g" -> [at |-> 2, terms |-> <<Term("S", 0, 1, "1"), Term("S", 1, 1, "1")>>, extra |-> "0"]
-    [] v = "us" /\ r = "num-m" -> [at |-> 1, terms |-> <<Term("ns-", -1, -1, "1")>>, extra |-> "0"]
-    [] v = "us" /\ r = "num-v" -> [at |-> 1, terms |-> <<Term("nsv", -1, -1, "1")>>, extra |-> "0"]
+  CASE v = "us" /\ r = "mom-q" -> [at |-> 2, terms |-> <<Term("S", 0, 0, "1"), Term("S", 1, 0, "1")>>, extra |-> "0", sc |-> "terms"]
+    [] v = "us" /\ r = "mom-g" -> [at |-> 2, terms |-> <<Term("S", 0, 1, "1"), Term("S", 1, 1, "1")>>, extra |-> "0", sc |-> "terms"]
+    [] v = "us" /\ r = "num-m" -> [at |-> 1, terms |-> <<Term("ns-", -1, -1, "1")>>, extra |-> "0", sc |-> "next"]
+    [] v = "us" /\ r = "num-v" -> [at |-> 1, terms |-> <<Term("nsv", -1, -1, "1")>>, extra |-> "0", sc |-> "next"]
     (* fragmentation convention: (2 nf, 1) is conserved, row-wise *)
-    [] v = "ut" /\ r = "mom-q" -> [at |-> 2, terms |-> <<Term("S", 0, 0, "2nf"), Term("S", 0, 1, "1")>>, extra |-> "0"]
-    [] v = "ut" /\ r = "mom-g" -> [at |-> 2, terms |-> <<Term("S", 1, 0, "2nf"), Term("S", 1, 1, "1")>>, extra |-> "0"]
-    [] v = "ut" /\ r = "num-m" -> [at |-> 1, terms |-> <<Term("ns-", -1, -1, "1")>>, extra |-> "0"]
-    [] v = "ut" /\ r = "num-v" -> [at |-> 1, terms |-> <<Term("nsv", -1, -1, "1")>>, extra |-> "0"]
+    [] v = "ut" /\ r = "mom-q" -> [at |-> 2, terms |-> <<Term("S", 0, 0, "2nf"), Term("S", 0, 1, "1")>>, extra |-> "0", sc |-> "terms"]
+    [] v = "ut" /\ r = "mom-g" -> [at |-> 2, terms |-> <<Term("S", 1, 0, "2nf"), Term("S", 1, 1, "1")>>, extra |-> "0", sc |-> "terms"]
+    [] v = "ut" /\ r = "num-m" -> [at |-> 1, terms |-> <<Term("ns-", -1, -1, "1")>>, extra |-> "0", sc |-> "next"]
+    [] v = "ut" /\ r = "num-v" -> [at |-> 1, terms |-> <<Term("nsv", -1, -1, "1")>>, extra |-> "0", sc |-> "next"]
     (* polarised: axial charge (ns+), quark-from-gluon, gluon-gluon = -beta_k *)
-    [] v = "ps" /\ r = "axial" -> [at |-> 1, terms |-> <<Term("ns+", -1, -1, "1")>>, extra |-> "0"]
-    [] v = "ps" /\ r = "qg1" -> [at |-> 1, terms |-> <<Term("S", 0, 1, "1")>>, extra |-> "0"]
-    [] v = "ps" /\ r = "gg-beta" -> [at |-> 1, terms |-> <<Term("S", 1, 1, "1")>>, extra |-> "beta"]
+    [] v = "ps" /\ r = "axial" -> [at |-> 1, terms |-> <<Term("ns+", -1, -1, "1")>>, extra |-> "0", sc |-> "next"]
+    [] v = "ps" /\ r = "qg1" -> [at |-> 1, terms |-> <<Term("S", 0, 1, "1")>>, extra |-> "0", sc |-> "next"]
+    [] v = "ps" /\ r = "gg-beta" -> [at |-> 1, terms |-> <<Term("S", 1, 1, "1")>>, extra |-> "beta", sc |-> "terms"]
     (* QED basis (g, photon, Sigma, Sigma_Delta): gluon + photon + singlet is conserved *)
-    [] v = "qed" /\ r = "mom-g" -> [at |-> 2, terms |-> <<Term("S", 0, 0, "1"), Term("S", 1, 0, "1"), Term("S", 2, 0, "1")>>, extra |-> "0"]
-    [] v = "qed" /\ r = "mom-ph" -> [at |-> 2, terms |-> <<Term("S", 0, 1, "1"), Term("S", 1, 1, "1"), Term("S", 2, 1, "1")>>, extra |-> "0"]
-    [] v = "qed" /\ r = "mom-q" -> [at |-> 2, terms |-> <<Term("S", 0, 2, "1"), Term("S", 1, 2, "1"), Term("S", 2, 2, "1")>>, extra |-> "0"]
-    [] v = "qed" /\ r = "mom-qd" -> [at |-> 2, terms |-> <<Term("S", 0, 3, "1"), Term("S", 1, 3, "1"), Term("S", 2, 3, "1")>>, extra |-> "0"]
-    [] v = "qed" /\ r = "num-v00" -> [at |-> 1, terms |-> <<Term("V", 0, 0, "1")>>, extra |-> "0"]
-    [] v = "qed" /\ r = "num-v01" -> [at |-> 1, terms |-> <<Term("V", 0, 1, "1")>>, extra |-> "0"]
-    [] v = "qed" /\ r = "num-v10" -> [at |-> 1, terms |-> <<Term("V", 1, 0, "1")>>, extra |-> "0"]
-    [] v = "qed" /\ r = "num-v11" -> [at |-> 1, terms |-> <<Term("V", 1, 1, "1")>>, extra |-> "0"]
-    [] v = "qed" /\ r = "num-u" -> [at |-> 1, terms |-> <<Term("ns-u", -1, -1, "1")>>, extra |-> "0"]
-    [] v = "qed" /\ r = "num-d" -> [at |-> 1, terms |-> <<Term("ns-d", -1, -1, "1")>>, extra |-> "0"]
+    [] v = "qed" /\ r = "mom-g" -> [at |-> 2, terms |-> <<Term("S", 0, 0, "1"), Term("S", 1, 0, "1"), Term("S", 2, 0, "1")>>, extra |-> "0", sc |-> "terms"]
+    [] v = "qed" /\ r = "mom-ph" -> [at |-> 2, terms |-> <<Term("S", 0, 1, "1"), Term("S", 1, 1, "1"), Term("S", 2, 1, "1")>>, extra |-> "0", sc |-> "terms"]
+    [] v = "qed" /\ r = "mom-q" -> [at |-> 2, terms |-> <<Term("S", 0, 2, "1"), Term("S", 1, 2, "1"), Term("S", 2, 2, "1")>>, extra |-> "0", sc |-> "terms"]
+    [] v = "qed" /\ r = "mom-qd" -> [at |-> 2, terms |-> <<Term("S", 0, 3, "1"), Term("S", 1, 3, "1"), Term("S", 2, 3, "1")>>, extra |-> "0", sc |-> "terms"]
+    [] v = "qed" /\ r = "num-v00" -> [at |-> 1, terms |-> <<Term("V", 0, 0, "1")>>, extra |-> "0", sc |-> "next"]
+    [] v = "qed" /\ r = "num-v01" -> [at |-> 1, terms |-> <<Term("V", 0, 1, "1")>>, extra |-> "0", sc |-> "next"]
+    [] v = "qed" /\ r = "num-v10" -> [at |-> 1, terms |-> <<Term("V", 1, 0, "1")>>, extra |-> "0", sc |-> "next"]
+    [] v = "qed" /\ r = "num-v11" -> [at |-> 1, terms |-> <<Term("V", 1, 1, "1")>>, extra |-> "0", sc |-> "next"]
+    [] v = "qed" /\ r = "num-u" -> [at |-> 1, terms |-> <<Term("ns-u", -1, -1, "1")>>, extra |-> "0", sc |-> "next"]
+    [] v = "qed" /\ r = "num-d" -> [at |-> 1, terms |-> <<Term("ns-d", -1, -1, "1")>>, extra |-> "0", sc |-> "next"]
 Rules(v) ==
   CASE v = "us" -> {"mom-q", "mom-g", "num-m", "num-v"}
     [] v = "ut" -> {"mom-q", "mom-g", "num-m", "num-v"}
@@ -163,7 +167,7 @@ RuleVars(fl, rule) ==
 AllRules == UNION {Rules(w) : w \in AdVariants}
 AllOrders == UNION {GridOrders(w) : w \in AdVariants}
 C25RuleCellsOf(fl) ==
-  {[law |-> "SumRule", v |-> v, rule |-> r, k |-> o[1], q |-> o[2], nf |-> nf, fl |-> fl, var |-> var] :
+  {[law |-> "SumRule", v |-> v, rule |-> r, k |-> o[1], q |-> o[2], nf |-> nf, fl |-> fl, var |-> var, j |-> 0] :
      v \in AdVariants, r \in AllRules, o \in {x \in AllOrders : fl \in Flavours(x[1])}, nf \in 3..6,
      var \in (IF fl = "eko" THEN 0..19 ELSE IF fl = "fhmruvv" THEN 0..2 ELSE {0})}
 C25RuleCells == UNION {C25RuleCellsOf(fl) : fl \in {"-", "fhmruvv", "eko"}}
@@ -175,11 +179,14 @@ C25RuleOk(c) == /\ c.rule \in Rules(c.v)
 (* FHMRUVV: central = mean(upper, lower), per splitting function *)
 FhmruvvEntries == {"gg", "gq", "qg", "ps", "nsp", "nsm", "nsv"}
 C25MeanCells == {[law |-> "FhmruvvMean", v |-> "us", rule |-> e, k |-> 4, q |-> 0, nf |-> nf,
-                  fl |-> "fhmruvv", var |-> j] : e \in FhmruvvEntries, nf \in 3..5, j \in Pts}
-PlanC25 == {c \in C25RuleCells : C25RuleOk(c)} \cup C25MeanCells
+                  fl |-> "fhmruvv", var |-> 0, j |-> j] : e \in FhmruvvEntries, nf \in 3..5, j \in Pts}
+(* the harness is handed the rule itself and the nf values the scale is maximised over *)
+PlanC25 == {[cell |-> c, def |-> SumRule(c.v, c.rule), nfs |-> NfSeq(c.k)] : c \in {x \in C25RuleCells : C25RuleOk(x)}}
+           \cup {[cell |-> c, def |-> [at |-> 0], nfs |-> NfSeq(4)] : c \in C25MeanCells}
 
 C25Required(c) == IF c.law = "FhmruvvMean" THEN -500 ELSE AccExp(AccClass(c.v, c.k, c.q, c.fl))
-C25Verdict(c, o) ==
+C25Verdict(cc, o) ==
+  LET c == cc.cell IN
   IF c.law = "FhmruvvMean"
   THEN Judge(o.e, -500, "C25:fhmruvv-central-not-mean")
   ELSE Judge(o.e, IF Switch = "all-exact" THEN -900 ELSE C25Required(c), "C25:" \o c.v \o ":" \o c.rule)
